@@ -73,3 +73,19 @@ Proof.
     + rewrite firstn_length. lia.
     + right. intros Hpos. rewrite skipn_length. apply N.leb_gt in E. lia.
 Qed.
+(* the fuel of fold_loop is never what ends it: with more than |line| rounds the answer does not depend
+   on the fuel (each fold leaves a strictly shorter rest), so GCannotFold always stands for a piece that
+   fold_header could not split *)
+Lemma fold_loop_fuel_irrelevant : forall f1 f2 rest limit skip acc,
+  0 < skip -> length rest < f1 -> length rest < f2 ->
+  fold_loop f1 rest limit skip acc = fold_loop f2 rest limit skip acc.
+Proof.
+  induction f1 as [|f1 IH]; intros f2 rest limit skip acc Hs H1 H2; [lia|].
+  destruct f2 as [|f2]; [lia|].
+  destruct rest as [|a t]; [reflexivity|].
+  cbn [fold_loop].
+  destruct (fold_header (a :: t) limit skip) as [[part rest']|] eqn:E; [|reflexivity].
+  destruct (fold_header_piece_within_limit _ _ _ _ _ E) as [_ [Hr|Hr]].
+  - subst rest'. destruct f1, f2; reflexivity.
+  - specialize (Hr Hs). apply IH; try lia.
+Qed.
